@@ -692,6 +692,13 @@ def compress_case(ctx):
             n = [l for l in n if l]
             if mode == "rel+origin" and rng.random() < 0.6:
                 n = prefix  # relative to the origin = base
+        if mode == "rel+origin" and origin and is_abs(origin) and rng.random() < 0.08:
+            # relative name whose completion with the origin is 254..257 octets long (over 255: NameTooLong)
+            t = rng.choice([254, 255, 256, 257]) - wl(origin)
+            if t >= 3:
+                names.append(name_total(rng, t, False))
+                ctx.count("compress:rel+origin-total-near-255")
+                continue
         if not nl.fits(n) or (not is_abs(n) and origin is not None and not nl.fits(n + origin)):
             n = prefix[:1] + suffix
             if not nl.fits(n) or (not is_abs(n) and origin is not None and not nl.fits(n + origin)):
@@ -947,6 +954,22 @@ def oracle(ctx, kind, case, out):
                 fail("from_wire(to_wire(n)) != n")
             if consumed != wlen:
                 fail("from_wire consumed != len(to_wire(n))")
+    elif op == 6:
+        # to_wire without compression: at most 255 octets, and it parses back to the name
+        # (made absolute with the origin) byte-identically unless canonicalize lower-cased it
+        n, origin, canon = case[1], case[2], case[3]
+        full = n if is_abs(n) or origin is None else n + origin
+        if len(out) > 255:
+            fail("to_wire produced an encoding longer than 255 octets")
+        else:
+            try:
+                back, consumed = dns.name.from_wire(bytes(out), 0)
+                back = [bytes(l) for l in back.labels]
+                want = [lower(l) for l in full] if canon else full
+                if back != want or consumed != len(out):
+                    fail("from_wire(to_wire(n, origin)) != n + origin")
+            except Exception as e:  # noqa
+                fail("to_wire output does not parse: " + type(e).__name__)
     elif op == 7:
         for k, v in out[1]:
             if v > 0x3FFF or v < 0:
